@@ -2,6 +2,8 @@ import QmiModel.Model.Scpi
 import QmiModel.Model.Usbtmc
 import QmiModel.Lemmas.C15Scpi
 import QmiModel.Lemmas.C15Usbtmc
+import QmiModel.Lemmas.C15UsbtmcRead
+import QmiModel.Lemmas.C15UsbtmcTags
 /-!
 # C15 (part A) — SCPI and USBTMC carry payloads unchanged and reject corrupted replies
 
@@ -469,12 +471,14 @@ example : (({} : Dev).run (writeMany 2 254 [[1, 2, 3], [], [4]]).2).map Dev.msgs
 
 /-- **readRaw_reassembles**: however a device splits a reply into transfers (any number of pieces, any piece sizes
 including empty ones, any alignment padding, EOM on the last piece only) `read_raw()` returns exactly the concatenation
-of the pieces, consumes exactly those transfers, and sends one request per transfer. -/
+of the pieces, consumes exactly those transfers, and sends one request per transfer.  `TagsOk` (each transfer answers its
+request) is demanded only of a tree that checks the Bulk-IN header (`cfg.checkHdr`); it is vacuous for the pinned tree. -/
 theorem readRaw_reassembles (cfg : Cfg) (hr : cfg.rigol = false) (ha : cfg.advantest = false)
     (hm : cfg.mts < 4294967296) (last : Nat) (num : Int) (hnum : num ≤ 0)
     (pieces : List Piece) (lastP : Piece) (extra : List Ev)
     (hall : ∀ p ∈ pieces, p.eom = false ∧ p.payload.length < 4294967296)
-    (he : lastP.eom = true) (hp : lastP.payload.length < 4294967296) :
+    (he : lastP.eom = true) (hp : lastP.payload.length < 4294967296)
+    (htags : TagsOk cfg last (pieces ++ [lastP])) :
     (readRaw cfg last num ((pieces ++ [lastP]).map (fun p => Ev.data p.bytes) ++ extra)).res
         = .ok ((pieces ++ [lastP]).map Piece.payload).flatten
     ∧ (readRaw cfg last num ((pieces ++ [lastP]).map (fun p => Ev.data p.bytes) ++ extra)).left = extra
@@ -484,7 +488,7 @@ theorem readRaw_reassembles (cfg : Cfg) (hr : cfg.rigol = false) (ha : cfg.advan
         = tagAfter last (pieces.length + 1) := by
   have hn : ¬ (0 < num ∧ num < (cfg.mts : Int)) := by omega
   simp only [readRaw, hn, if_false]
-  have := readLoop_reassembles cfg hr ha pieces lastP extra { last, num, readLen := cfg.mts } hnum hm hall he hp
+  have := readLoop_reassembles cfg hr ha pieces lastP extra { last, num, readLen := cfg.mts } hnum hm hall he hp htags
   simpa using this
 
 example : (readRaw { mts := 4 } 254 (-1)
@@ -496,7 +500,7 @@ whole transfers from the front of the reply, is never longer than `num`, and is 
 message ended (EOM) first; the transfers not needed are not consumed. -/
 theorem readRaw_num_prefix (cfg : Cfg) (hr : cfg.rigol = false) (ha : cfg.advantest = false)
     (hm : cfg.mts < 4294967296) (last : Nat) (num : Int) (hnum : 0 < num) (pieces : List Piece)
-    (hconf : Conforms num pieces)
+    (hconf : Conforms num pieces) (htags : TagsOk cfg last pieces)
     (hend : (pieces.map Piece.payload).flatten.length ≥ num.toNat ∨ ∃ p ∈ pieces, p.eom = true) :
     ∃ k, k ≤ pieces.length
       ∧ (readRaw cfg last num (pieces.map (fun p => Ev.data p.bytes))).res
@@ -510,7 +514,7 @@ theorem readRaw_num_prefix (cfg : Cfg) (hr : cfg.rigol = false) (ha : cfg.advant
     · omega
     · exact hm
   have := readLoop_num cfg hr ha pieces
-    { last, num, readLen := if 0 < num ∧ num < (cfg.mts : Int) then num.toNat else cfg.mts } hnum hlen hconf hend
+    { last, num, readLen := if 0 < num ∧ num < (cfg.mts : Int) then num.toNat else cfg.mts } hnum hlen hconf htags hend
   simpa using this
 
 -- non-vacuity: 5-byte reply in pieces 2+1+2, `num = 3`: the first two transfers are consumed, the third is left
@@ -524,7 +528,7 @@ example : (readRaw { mts := 4 } 0 3 [.data [2, 1, 254, 0, 2, 0, 0, 0, 0, 0, 0, 0
 other cases it raises. -/
 theorem readRaw_refines_hostSpec (cfg : Cfg) (hr : cfg.rigol = false) (ha : cfg.advantest = false)
     (hm : cfg.mts < 4294967296) (last : Nat) (num : Int) (hnum : num ≤ 0) (script : List Ev) :
-    (readRaw cfg last num script).res.toOption = hostSpec script [] := by
+    (readRaw cfg last num script).res.toOption = hostSpec cfg.checkHdr last script [] := by
   have hn : ¬ (0 < num ∧ num < (cfg.mts : Int)) := by omega
   simp only [readRaw, hn, if_false]
   exact readLoop_refines_hostSpec cfg hr ha script { last, num, readLen := cfg.mts } hnum hm
@@ -532,12 +536,12 @@ theorem readRaw_refines_hostSpec (cfg : Cfg) (hr : cfg.rigol = false) (ha : cfg.
 /-- a reply that never reaches EOM raises (USB time-out after the last transfer, abort sequence names the last tag) -/
 theorem readRaw_incomplete_times_out (cfg : Cfg) (hr : cfg.rigol = false) (ha : cfg.advantest = false)
     (hm : cfg.mts < 4294967296) (last : Nat) (num : Int) (hnum : num ≤ 0) (pieces : List Piece)
-    (hall : ∀ p ∈ pieces, p.eom = false ∧ p.payload.length < 4294967296) :
+    (hall : ∀ p ∈ pieces, p.eom = false ∧ p.payload.length < 4294967296) (htags : TagsOk cfg last pieces) :
     (readRaw cfg last num (pieces.map (fun p => Ev.data p.bytes))).res = .error .usbTimeout
     ∧ (readRaw cfg last num (pieces.map (fun p => Ev.data p.bytes))).abortTag = some (tagAfter last (pieces.length + 1)) := by
   have hn : ¬ (0 < num ∧ num < (cfg.mts : Int)) := by omega
   simp only [readRaw, hn, if_false]
-  exact readLoop_incomplete cfg hr ha pieces { last, num, readLen := cfg.mts } hnum hm hall
+  exact readLoop_incomplete cfg hr ha pieces { last, num, readLen := cfg.mts } hnum hm hall htags
 
 example : (readRaw { mts := 8 } 3 (-1) [.data [2, 4, 251, 0, 2, 0, 0, 0, 0, 0, 0, 0, 7, 8]]).res.toOption = none
     ∧ (readRaw { mts := 8 } 3 (-1) [.data [2, 4, 251, 0, 2, 0, 0, 0, 0, 0, 0, 0, 7, 8]]).abortTag = some 5 := by decide
@@ -558,33 +562,322 @@ example : (readRaw { mts := 8 } 3 (-1) [.data [2, 4, 251, 0, 2, 0, 0]]).res.toOp
 
 /-- USBTMC 1.0 §3.3.1.1: a transfer that carries fewer data bytes than its TransferSize claims (a corrupted length
 field, or a short packet) never completes the message, whatever its EOM bit says: `read_raw` asks for more and, when
-nothing comes, raises. -/
+nothing comes, raises (no data is returned). -/
 theorem readRaw_partial_transfer_never_completes (cfg : Cfg) (hr : cfg.rigol = false) (ha : cfg.advantest = false)
     (hm : cfg.mts < 4294967296) (last : Nat) (num : Int) (hnum : num ≤ 0)
     (h0 h1 h2 h3 attr r1 r2 r3 : UInt8) (ts : Nat) (body : Bytes) (hts : ts < 4294967296) (hshort : body.length < ts) :
-    (readRaw cfg last num [.data (h0 :: h1 :: h2 :: h3 :: (le32 ts ++ (attr :: r1 :: r2 :: r3 :: body)))]).res
-      = .error .usbTimeout := by
-  have hn : ¬ (0 < num ∧ num < (cfg.mts : Int)) := by omega
-  have hn' : ¬ (num > 0) := by omega
+    (readRaw cfg last num [.data (h0 :: h1 :: h2 :: h3 :: (le32 ts ++ (attr :: r1 :: r2 :: r3 :: body)))]).res.toOption
+      = none := by
+  rw [readRaw_refines_hostSpec cfg hr ha hm last num hnum]
   have htake : body.take ts = body := List.take_of_length_le (by omega)
   have hge : ¬ (ts ≤ body.length) := by omega
-  simp only [readRaw, hn, if_false]
-  rw [readLoop]
-  simp only [reqStep, hr, ha, packIn_ok _ _ _ hm, Bool.not_false, Bool.true_or, Bool.false_and,
-    Bool.false_eq_true, if_false, if_true, le32, List.cons_append, List.nil_append, unpackResp, unLe32_le32 _ hts, htake,
-    hn', false_and, ge_iff_le, hge]
-  simp [readLoop, reqStep, hr, packIn_ok _ _ _ hm]
+  simp only [hostSpec, le32, List.cons_append, List.nil_append, unpackResp, unLe32_le32 _ hts, htake]
+  split
+  · rfl
+  · simp [hge, hostSpec]
 
 example : (readRaw { mts := 8 } 3 (-1) [.data [2, 4, 251, 0, 9, 0, 0, 0, 1, 0, 0, 0, 7, 8]]).res.toOption = none := by decide
 
-/-- What `read_raw` does **not** check (the stronger wish "every header-field corruption raises" is false of the code):
-a reply whose MsgID is not DEV_DEP_MSG_IN, whose bTag is not the request's and whose bTagInverse is not the complement is
-accepted; its payload is delivered unchanged.  (This is also an instance of `readRaw_reassembles`, whose `Piece`s have
-arbitrary first four bytes.) -/
+/-! ### Quirk read paths (non-conforming devices the code has special cases for) -/
+
+/-- Advantest quirk: exactly one transfer is taken and its data returned, whether or not the device set EOM (these
+devices never do); the following transfers are not touched. -/
+theorem readRaw_advantest_single (cfg : Cfg) (hr : cfg.rigol = false) (ha : cfg.advantest = true)
+    (hm : cfg.mts < 4294967296) (last : Nat) (num : Int) (p : Piece) (hp : p.payload.length < 4294967296)
+    (script : List Ev) :
+    (readRaw cfg last num (.data p.bytes :: script)).res = .ok p.payload
+    ∧ (readRaw cfg last num (.data p.bytes :: script)).left = script
+    ∧ (readRaw cfg last num (.data p.bytes :: script)).rs.reqs.length = 1 := by
+  have hlen : (if 0 < num ∧ num < (cfg.mts : Int) then num.toNat else cfg.mts) < 4294967296 := by
+    split
+    · omega
+    · exact hm
+  simp only [readRaw]
+  obtain ⟨h1, h2, h3⟩ := readLoop_advantest cfg hr ha
+    { last, num, readLen := if 0 < num ∧ num < (cfg.mts : Int) then num.toNat else cfg.mts } hlen p hp script
+  exact ⟨by simpa using h1, h2, by rw [h3]; simp⟩
+
+example : (readRaw { mts := 63, advantest := true } 0 (-1) [.data [2, 1, 254, 0, 2, 0, 0, 0, 0, 0, 0, 0, 7, 8], .data [9]]).res.toOption
+    = some [7, 8] := by decide
+
+/-- RIGOL quirk, general form: the first packet carries the only header; the loop then waits for `T` bytes in all
+(`T` = the header's TransferSize, or what the IEEE-block sub-quirk reads from the data), appending the header-less
+packets that follow, and returns exactly the first `T` bytes of what the device sent — one request only.
+Needed of the device: at least one data byte in the first packet, and the `T` bytes do arrive. -/
+theorem readRaw_rigol_reassembles_general (cfg : Cfg) (hr : cfg.rigol = true) (ha : cfg.advantest = false)
+    (hm : cfg.mts < 4294967296) (last : Nat) (num : Int) (hnum : num ≤ 0)
+    (h0 h1 h2 h3 attr r1 r2 r3 : UInt8) (total : Nat) (body : Bytes) (htot : total < 4294967296)
+    (hok : cfg.checkHdr = true → h0.toNat = MSGID_REQUEST_DEV_DEP_MSG_IN ∧ h1.toNat = nextTag last ∧ h2.toNat = invTag h1.toNat)
+    (T : Nat) (hsz : ieeeSize cfg (body.take total) total = .ok (T : Int))
+    (conts : List Bytes) (extra : List Ev)
+    (hb0 : body.take total ≠ []) (hge : (body.take total ++ conts.flatten).length ≥ T) :
+    (readRaw cfg last num (.data (rigolFirst h0 h1 h2 h3 attr r1 r2 r3 total body) :: (conts.map Ev.data ++ extra))).res
+        = .ok ((body.take total ++ conts.flatten).take T)
+    ∧ (readRaw cfg last num (.data (rigolFirst h0 h1 h2 h3 attr r1 r2 r3 total body) :: (conts.map Ev.data ++ extra))).rs.reqs.length = 1
+    ∧ (readRaw cfg last num (.data (rigolFirst h0 h1 h2 h3 attr r1 r2 r3 total body) :: (conts.map Ev.data ++ extra))).rs.last
+        = nextTag last := by
+  have hn : ¬ (0 < num ∧ num < (cfg.mts : Int)) := by omega
+  simp only [readRaw, hn, if_false]
+  rw [readLoop_rigol_first cfg hr ha { last, num, readLen := cfg.mts } rfl hnum hm h0 h1 h2 h3 attr r1 r2 r3 total body htot
+    hok T hsz]
+  by_cases h : (body.take total).length ≥ T
+  · rw [if_pos h]
+    refine ⟨?_, by simp [rsReq], by simp [rsReq]⟩
+    rw [List.take_append_of_le_length h]
+  · rw [if_neg h]
+    have := readLoop_rigol_conts cfg hr ha conts
+      { rsReq cfg { last, num, readLen := cfg.mts } with readData := body.take total, ts := T, data := body.take total } extra
+      hb0 hnum (by simpa using h) hge
+    obtain ⟨g1, g2, g3⟩ := this
+    exact ⟨g1, by rw [g2]; simp [rsReq], by rw [g3]; simp [rsReq]⟩
+
+/-- RIGOL quirk without the IEEE-block sub-quirk (or data that do not start with `#`): the message is the first
+`TransferSize` bytes of first-packet data ++ continuation packets. -/
+theorem readRaw_rigol_reassembles (cfg : Cfg) (hr : cfg.rigol = true) (ha : cfg.advantest = false)
+    (hm : cfg.mts < 4294967296) (last : Nat) (num : Int) (hnum : num ≤ 0)
+    (h0 h1 h2 h3 attr r1 r2 r3 : UInt8) (total : Nat) (body : Bytes) (htot : total < 4294967296)
+    (hok : cfg.checkHdr = true → h0.toNat = MSGID_REQUEST_DEV_DEP_MSG_IN ∧ h1.toNat = nextTag last ∧ h2.toNat = invTag h1.toNat)
+    (hi : cfg.rigolIeee = false ∨ (body.take total).head? ≠ some 35)
+    (conts : List Bytes) (extra : List Ev)
+    (hb0 : body.take total ≠ []) (hge : (body.take total ++ conts.flatten).length ≥ total) :
+    (readRaw cfg last num (.data (rigolFirst h0 h1 h2 h3 attr r1 r2 r3 total body) :: (conts.map Ev.data ++ extra))).res
+        = .ok ((body.take total ++ conts.flatten).take total) := by
+  have hsz : ieeeSize cfg (body.take total) total = .ok (total : Int) := by
+    rcases hi with hi | hi
+    · exact ieeeSize_off cfg hi _ _
+    · exact ieeeSize_nohash cfg _ _ hi
+  exact (readRaw_rigol_reassembles_general cfg hr ha hm last num hnum h0 h1 h2 h3 attr r1 r2 r3 total body htot hok total hsz
+    conts extra hb0 hge).1
+
+-- non-vacuity: 5-byte message, header says 5, first packet carries 2 bytes, two raw continuation packets (the last with
+-- 3 trailing bytes that are cut off)
+example : (readRaw { mts := 64, rigol := true } 9 (-1)
+    [.data [2, 10, 245, 0, 5, 0, 0, 0, 1, 0, 0, 0, 65, 66], .data [67], .data [68, 69, 0, 0, 0]]).res.toOption
+      = some [65, 66, 67, 68, 69] := by decide
+
+/-- RIGOL IEEE-block sub-quirk: when the data of the first packet start with a block header `#<l><n as l digits>`, the
+size of the message is `n + l + 2` whatever the USBTMC header claims, and exactly that many bytes are returned. -/
+theorem readRaw_rigol_ieee_block (cfg : Cfg) (hr : cfg.rigol = true) (ha : cfg.advantest = false)
+    (hie : cfg.rigolIeee = true) (hm : cfg.mts < 4294967296) (last : Nat) (num : Int) (hnum : num ≤ 0)
+    (h0 h1 h2 h3 attr r1 r2 r3 : UInt8) (total : Nat) (htot : total < 4294967296)
+    (hok : cfg.checkHdr = true → h0.toNat = MSGID_REQUEST_DEV_DEP_MSG_IN ∧ h1.toNat = nextTag last ∧ h2.toNat = invTag h1.toNat)
+    (k : UInt8) (ds rest : Bytes) (hk1 : 49 ≤ k.toNat) (hk9 : k.toNat ≤ 57) (hlen : ds.length = k.toNat - 48)
+    (hds : ∀ x ∈ ds, isDigit x = true) (hfit : (35 :: k :: (ds ++ rest)).length ≤ total)
+    (conts : List Bytes) (extra : List Ev)
+    (hge : ((35 :: k :: (ds ++ rest)) ++ conts.flatten).length ≥ decVal ds + (k.toNat - 48) + 2) :
+    (readRaw cfg last num (.data (rigolFirst h0 h1 h2 h3 attr r1 r2 r3 total (35 :: k :: (ds ++ rest)))
+        :: (conts.map Ev.data ++ extra))).res
+      = .ok (((35 :: k :: (ds ++ rest)) ++ conts.flatten).take (decVal ds + (k.toNat - 48) + 2)) := by
+  have htake : (35 :: k :: (ds ++ rest)).take total = 35 :: k :: (ds ++ rest) := List.take_of_length_le hfit
+  have hsz := ieeeSize_block cfg hie k ds rest total hk1 hk9 hlen hds
+  have := readRaw_rigol_reassembles_general cfg hr ha hm last num hnum h0 h1 h2 h3 attr r1 r2 r3 total
+    (35 :: k :: (ds ++ rest)) htot hok (decVal ds + (k.toNat - 48) + 2) (by rw [htake]; exact hsz) conts extra
+    (by rw [htake]; simp) (by rw [htake]; exact hge)
+  rw [htake] at this
+  exact this.1
+
+-- non-vacuity: block "#15hello" — the USBTMC header claims 20 bytes, the block header says 5 + 1 + 2 = 8
+example : (readRaw { mts := 64, rigol := true, rigolIeee := true } 9 (-1)
+    [.data [2, 10, 245, 0, 20, 0, 0, 0, 1, 0, 0, 0, 35, 49, 53, 104, 101], .data [108, 108, 111, 10, 0]]).res.toOption
+      = some [35, 49, 53, 104, 101, 108, 108, 111] := by decide
+
+/-! ### Sessions: `ask_raw`, `trigger`, abort sequences — the bTag state across calls -/
+
+/-- **session_tags_cycle**: whatever is called on one instrument in whatever order (`write_raw`, `read_raw`, `ask_raw`,
+`trigger`), with any endpoint faults, any abort sequences in between and any device behaviour, the Bulk-OUT headers put
+on the wire carry consecutive tags of the 1..255 cycle — never 0, never the previous tag again — and `last_btag` ends as
+the tag of the last header.  In particular an abort does not disturb the framing of the next message. -/
+theorem session_tags_cycle (cfg : Cfg) (hm : cfg.mts < 4294967296) (calls : List Call) (last : Nat) :
+    (session cfg last calls).2.map tagOf = tagsFrom last (session cfg last calls).2.length
+    ∧ (session cfg last calls).1 = tagAfter last (session cfg last calls).2.length
+    ∧ ∀ t ∈ (session cfg last calls).2.map tagOf, t ≠ some 0 := by
+  obtain ⟨h1, h2⟩ := session_tags cfg hm calls last
+  refine ⟨h1, h2, ?_⟩
+  rw [h1]
+  exact tagsFrom_nonzero _ _
+
+example : (session { mts := 2 } 254
+    [.write [1, 2, 3] (some (1, true)) [1, 2, 1], .trigger true, .read (-1) [.timeout] [1], .write [9] none []]).2.map tagOf
+      = [some 255, some 1, some 2, some 3, some 4] := by decide
+
+/-- the abort sequences run on the control endpoint only: they leave `last_btag` and everything put on Bulk-OUT as the
+plain call left them, and they name the tag of the transfer that timed out -/
+theorem abort_keeps_framing_state (cfg : Cfg) (f : Option (Nat × Bool)) (last : Nat) (d : Bytes) (num : Int) (script : List Ev)
+    (ctrl : List Nat) :
+    (writeRawA cfg.mts f last d ctrl).1 = writeRaw cfg.mts f last d
+    ∧ (readRawA cfg last num script ctrl).1.rs = (readRaw cfg last num script).rs
+    ∧ (∀ t, (writeRaw cfg.mts f last d).abortTag = some t → t = (writeRaw cfg.mts f last d).last
+        ∧ (writeRawA cfg.mts f last d ctrl).2.1.ctrl.head? = some (1, t)) := by
+  refine ⟨writeRawA_fst _ _ _ _ _, readRawA_frame _ _ _ _ _, ?_⟩
+  intro t ht
+  constructor
+  · exact writeRaw_abortTag _ _ _ _ t ht
+  · simp only [writeRawA, ht, abortOut]
+    cases hps : popStatus ctrl with
+    | mk s0 c1 =>
+      simp only []
+      split <;> simp
+
+/-- `trigger()` on a USB488 device: a 12-byte Bulk-OUT message MsgID 128, next tag, its complement, nine zero bytes -/
+theorem trigger_usb488_frame (mts last : Nat) :
+    (trigger true mts last).sent
+      = [[128, UInt8.ofNat (nextTag last), UInt8.ofNat (255 - nextTag last), 0, 0, 0, 0, 0, 0, 0, 0, 0]]
+    ∧ (trigger true mts last).last = nextTag last := by
+  have := nextTag_le last
+  simp only [trigger, packTrigger, if_true, bulkOutHeader, invTag, USB488_MSGID_TRIGGER]
+  rw [Nat.mod_eq_of_lt (by omega)]
+  simp
+
+/-- `ask_raw`: the device decodes exactly the query, and the driver receives exactly the reply, however it is split —
+the two halves share one tag sequence. -/
+theorem askRaw_roundtrip (cfg : Cfg) (hr : cfg.rigol = false) (ha : cfg.advantest = false)
+    (hm1 : 1 ≤ cfg.mts) (hm : cfg.mts < 4294967296) (last : Nat) (hlast : last ≤ 255) (d : Bytes) (hd : d ≠ [])
+    (dv : Dev) (hprev : dv.prev ≠ some (nextTag last)) (hacc : dv.acc = [])
+    (num : Int) (hnum : num ≤ 0) (pieces : List Piece) (lastP : Piece) (ctrl : List Nat)
+    (hall : ∀ p ∈ pieces, p.eom = false ∧ p.payload.length < 4294967296)
+    (he : lastP.eom = true) (hp : lastP.payload.length < 4294967296)
+    (htags : TagsOk cfg (writeRaw cfg.mts none last d).last (pieces ++ [lastP])) :
+    ∃ w wa r ra, askRaw cfg last d num none ((pieces ++ [lastP]).map (fun p => Ev.data p.bytes)) ctrl = ((w, wa), some (r, ra))
+      ∧ dv.run w.sent = some { prev := some w.last, acc := [], msgs := dv.msgs ++ [d] }
+      ∧ r.res = .ok ((pieces ++ [lastP]).map Piece.payload).flatten := by
+  obtain ⟨e1, e2, _, _⟩ := device_decodes_write cfg.mts last d dv hm1 (by omega) hlast hprev hacc hd
+  have hre := readRaw_reassembles cfg hr ha hm (writeRaw cfg.mts none last d).last num hnum pieces lastP [] hall he hp htags
+  simp only [List.append_nil] at hre
+  have hwa : writeRawA cfg.mts none last d ctrl = (writeRaw cfg.mts none last d, {}, ctrl) := by
+    simp only [writeRawA, writeRaw_nofault_no_abort]
+  have hro := readRawA_ok cfg (writeRaw cfg.mts none last d).last num ((pieces ++ [lastP]).map (fun p => Ev.data p.bytes)) ctrl _ hre.1
+  simp only [askRaw, hwa, e1]
+  generalize hq : readRawA cfg (writeRaw cfg.mts none last d).last num ((pieces ++ [lastP]).map (fun p => Ev.data p.bytes)) ctrl = q
+  obtain ⟨r, ra, c'⟩ := q
+  rw [hq] at hro
+  simp only at hro
+  exact ⟨_, _, r, ra, rfl, e2, by rw [hro]; exact hre.1⟩
+
+/-! ### `read_stb`, `clear`, and the degenerate `max_transfer_size = 0` -/
+
+/-- `read_stb()` hands out a status byte only if the control response reports success and repeats the request's tag, and
+(when the interface has an interrupt endpoint) the interrupt packet carries that tag with bit 7 set; everything else
+raises.  The tag stays within 2..128. -/
+theorem readStb_sound (lastRstb b0 b1 b2 : Nat) (intr : Option (Nat × Nat)) (v : Nat)
+    (h : (readStb lastRstb b0 b1 b2 intr).res = .ok v) :
+    b0 = STATUS_SUCCESS ∧ b1 = nextRstbTag lastRstb
+    ∧ (match intr with | none => v = b2 | some (r0, r1) => r0 = nextRstbTag lastRstb + 128 ∧ v = r1)
+    ∧ 2 ≤ nextRstbTag lastRstb ∧ nextRstbTag lastRstb ≤ 128 := by
+  have hr : 2 ≤ nextRstbTag lastRstb ∧ nextRstbTag lastRstb ≤ 128 := by
+    simp only [nextRstbTag]; split <;> omega
+  simp only [readStb] at h
+  split at h
+  · rename_i h0
+    split at h
+    · simp at h
+    · rename_i h1
+      have h1' : b1 = nextRstbTag lastRstb := by
+        have : ¬ nextRstbTag lastRstb ≠ b1 := h1
+        omega
+      cases intr with
+      | none =>
+        simp only [Except.ok.injEq] at h
+        exact ⟨h0, h1', h.symm, hr⟩
+      | some p =>
+        obtain ⟨r0, r1⟩ := p
+        simp only [] at h
+        split at h
+        · simp at h
+        · rename_i h2
+          simp only [Except.ok.injEq] at h
+          exact ⟨h0, h1', ⟨by omega, h.symm⟩, hr⟩
+  · simp at h
+
+/-- Observation outside the statement of C15 (USB488 §4.3.1 wants the READ_STATUS_BYTE tag in 2..127): after tag 127 the
+code uses 128, for which the interrupt-packet test `resp[0] == tag + 128` can never hold. -/
+theorem rstb_tag_128_witness : nextRstbTag 127 = 128
+    ∧ ∀ r0 r1 b2, r0 < 256 → (readStb 127 1 128 b2 (some (r0, r1))).res.toOption = none := by
+  refine ⟨by decide, ?_⟩
+  intro r0 r1 b2 hr
+  have : r0 ≠ 256 := by omega
+  simp [readStb, nextRstbTag, STATUS_SUCCESS, this, Except.toOption]
+
+/-- `clear()` never touches the bTag state (it has no access to it in the model: `clearSeq` does not take it), polls
+CHECK_CLEAR_STATUS at least once after a successful INITIATE_CLEAR, and clears the Bulk-OUT halt exactly when
+INITIATE_CLEAR succeeded; otherwise it raises. -/
+theorem clearSeq_outcome (force : Bool) (ctrl : List Nat) :
+    ((clearSeq force ctrl).exc = none ↔ ctrl.head? = some STATUS_SUCCESS)
+    ∧ ((clearSeq force ctrl).clearedOut = true ↔ ctrl.head? = some STATUS_SUCCESS)
+    ∧ ((clearSeq force ctrl).clearedIn = true ↔ (ctrl.head? = some STATUS_SUCCESS ∧ force = true)) := by
+  cases ctrl with
+  | nil => simp [clearSeq, popStatus, STATUS_SUCCESS]
+  | cons s r =>
+    by_cases h : s = STATUS_SUCCESS
+    · simp [clearSeq, popStatus, h]
+    · simp [clearSeq, popStatus, h]
+
+/-- `max_transfer_size = 0` is not a configuration the code ever sets (1 MiB, or 63 for Advantest devices); with it
+`write_raw` of a non-empty payload never returns (each block is empty, `num` never shrinks).  Recorded as a fact of the
+model, checked against the real loop with an I/O budget; not a finding: C15 quantifies over payloads, not over this
+attribute. -/
+theorem writeRaw_mts0_never_returns (fault : Option (Nat × Bool)) (last : Nat) (d : Bytes) (hd : d ≠ []) :
+    (writeRaw 0 fault last d).exc = some .hang := by
+  have : d.isEmpty = false := by cases d <;> simp_all
+  simp [writeRaw, this]
+
+/-! ### Header integrity of Bulk-IN transfers (USBTMC 1.0 Table 8) — a genuine defect of the pinned tree
+
+FULL STATEMENT (what C15 asks for; **false** of the pinned tree):
+
+    theorem readRaw_rejects_header_mismatch (cfg : Cfg) (ha : cfg.advantest = false) … :
+        unpackResp resp = some (m, t, ti, ts, a, d) →
+        (m.toNat ≠ 2 ∨ t.toNat ≠ nextTag last ∨ ti.toNat ≠ invTag t.toNat) →
+        (readRaw cfg last num (.data resp :: script)).res = .error .usbtmcMismatch
+
+`read_raw` of the pinned tree never looks at MsgID / bTag / bTagInverse, so the late answer to an earlier (timed-out)
+request, or what is left of a reply after a transfer was lost, is handed to the driver as the answer to the current
+request.  `readRaw_tag_fields_unchecked` and `readRaw_stale_reply_accepted` are the negation witnesses (replayed on the
+real code by the harness: known finding `u.read:bulk-in-header-mismatch-accepted:*`).  What is proved is the statement for
+a tree that does check (`cfg.checkHdr = true`, the repair drafted in fixes/C15-usbtmc-bulk-in-header-check.diff); the
+harness probes the code under test on every run and passes the answer to the model, so the theorems below are the ones
+that apply as soon as the repair is in. -/
+
+/-- Missing hypothesis w.r.t. the full statement: `cfg.checkHdr = true` (the tree validates the header). -/
+theorem readRaw_rejects_header_mismatch_partial (cfg : Cfg) (hc : cfg.checkHdr = true) (ha : cfg.advantest = false)
+    (hm : cfg.mts < 4294967296) (last : Nat) (num : Int) (resp : Bytes) (script : List Ev)
+    (m t ti a : UInt8) (ts : Nat) (d : Bytes) (hu : unpackResp resp = some (m, t, ti, ts, a, d))
+    (hbad : m.toNat ≠ MSGID_REQUEST_DEV_DEP_MSG_IN ∨ t.toNat ≠ nextTag last ∨ ti.toNat ≠ invTag t.toNat) :
+    (readRaw cfg last num (.data resp :: script)).res = .error .usbtmcMismatch := by
+  have hlen : (if 0 < num ∧ num < (cfg.mts : Int) then num.toNat else cfg.mts) < 4294967296 := by
+    split
+    · omega
+    · exact hm
+  simp only [readRaw]
+  rw [readLoop]
+  rw [reqStep_ok cfg _ (Or.inr rfl) hlen]
+  have hcond : (m.toNat != MSGID_REQUEST_DEV_DEP_MSG_IN || t.toNat != nextTag last || ti.toNat != invTag t.toNat) = true := by
+    rcases hbad with h | h | h <;> simp [h]
+  simp [absorb, rsReq, hu, hc, ha, hcond]
+
+-- non-vacuity, and the stale-reply scenario on a checking tree: the late answer (bTag 5) to the previous request raises
+example : (readRaw { mts := 64, checkHdr := true } 5 (-1)
+      [.data [2, 5, 250, 0, 5, 0, 0, 0, 1, 0, 0, 0, 83, 84, 65, 76, 69], .data [2, 6, 249, 0, 2, 0, 0, 0, 1, 0, 0, 0, 79, 75]]).res.toOption = none
+    ∧ (readRaw { mts := 64, checkHdr := true } 5 (-1)
+      [.data [2, 6, 249, 0, 2, 0, 0, 0, 1, 0, 0, 0, 79, 75]]).res.toOption = some [79, 75] := by decide
+
+/-- Negation witness 1 (pinned tree, `checkHdr = false`): a reply whose MsgID is not DEV_DEP_MSG_IN, whose bTag is not the
+request's and whose bTagInverse is not the complement is accepted.  (Also an instance of `readRaw_reassembles`, whose
+`Piece`s have arbitrary first four bytes when nothing is checked.) -/
 theorem readRaw_tag_fields_unchecked :
     ∃ reply : Bytes, reply.take 3 = [99, 77, 77]
       ∧ (readRaw { mts := 1024 } 5 (-1) [.data reply]).res.toOption = some [1, 2, 3] :=
   ⟨[99, 77, 77, 1, 3, 0, 0, 0, 1, 0, 0, 0, 1, 2, 3, 0], by decide, by decide⟩
+
+/-- Negation witness 2 (pinned tree): wrong data.  `last_btag = 5`; the device first delivers the late answer "STALE" to
+the previous request (bTag 5), then the answer "OK" to the current one (bTag 6): `read_raw()` returns "STALE" and leaves
+the real answer behind for the next call. -/
+theorem readRaw_stale_reply_accepted :
+    (readRaw { mts := 64 } 5 (-1)
+      [.data [2, 5, 250, 0, 5, 0, 0, 0, 1, 0, 0, 0, 83, 84, 65, 76, 69], .data [2, 6, 249, 0, 2, 0, 0, 0, 1, 0, 0, 0, 79, 75]]).res.toOption
+      = some [83, 84, 65, 76, 69]
+    ∧ (readRaw { mts := 64 } 5 (-1)
+      [.data [2, 5, 250, 0, 5, 0, 0, 0, 1, 0, 0, 0, 83, 84, 65, 76, 69], .data [2, 6, 249, 0, 2, 0, 0, 0, 1, 0, 0, 0, 79, 75]]).left.length = 1 := by
+  decide
 
 end UsbtmcSec
 end QmiModel.C15
